@@ -42,12 +42,14 @@ def _worker_run(job):
         if 'spec' in case and 'src' not in case:
             built = c12_gen.build(case['spec'], case['tag'])
         else:
-            built = {'src': case['src'], 'entry': case['entry'], 'args': case['args'], 'fn_conv': case.get('fn_conv', {})}
+            built = {'src': case['src'], 'entry': case['entry'], 'args': case['args'], 'fn_conv': case.get('fn_conv', {}),
+                     'recursive': case.get('recursive', True)}
         name = 'c12case_%s' % case['tag']
         path = os.path.join(_W['dir'], name + '.py')
         res = c12_real.analyse_case(built, path, name, want_corr)
         res['path'] = path
         res['src'] = built['src']; res['entry'] = built['entry']; res['args'] = built['args']; res['fn_conv'] = built.get('fn_conv', {})
+        res['recursive'] = built.get('recursive', True)
         return idx, res
     except Exception:
         return idx, {'status': 'harness-error', 'error': traceback.format_exc()[-1500:], 'fails': [], 'corr': [], 'stats': {}}
@@ -273,8 +275,9 @@ def process(run, cases, corr_every=1, full=True):
 
     # the generators must actually reach the code under test
     n_ok = status.get('ok', 0)
-    run.oblige('coverage:cases-reach-converted-code', 'coverage', n_ok >= 0.8 * len(jobs),
-               'only %d of %d cases raised in both runs with the expected functions converted: %s' % (n_ok, len(jobs), status))
+    if full:
+        run.oblige('coverage:cases-reach-converted-code', 'coverage', n_ok >= 0.8 * len(jobs),
+                   'only %d of %d cases raised in both runs with the expected functions converted: %s' % (n_ok, len(jobs), status))
 
     # ---------------- correspondence ----------------
     classes_by_case, checks_by_case = {}, {}
@@ -400,7 +403,7 @@ def process(run, cases, corr_every=1, full=True):
         if key in seen or len(seen) > 40:
             continue          # one recorded witness per (oracle, class); the rest is counted above
         seen.add(key)
-        run.fail(f['what'], {'src': res['src'], 'entry': res['entry'], 'args': res['args'], 'fn_conv': res['fn_conv'],
+        run.fail(f['what'], {'src': res['src'], 'entry': res['entry'], 'args': res['args'], 'fn_conv': res['fn_conv'], 'recursive': res.get('recursive', True),
                              'spec': case.get('spec'), 'oracle': f['oracle'], 'corpus': case.get('corpus')}, cls)
 
     # a listed finding whose class was not observed is reported in the evidence (a fix in /repo makes the listing stale;
@@ -428,7 +431,7 @@ def replay(run, path):
     with open(path) as f:
         rep = json.load(f)
     case = rep.get('case', rep)
-    case = {k: v for k, v in case.items() if k in ('src', 'entry', 'args', 'fn_conv', 'spec') and v is not None}
+    case = {k: v for k, v in case.items() if k in ('src', 'entry', 'args', 'fn_conv', 'spec', 'recursive') and v is not None}
     if 'src' not in case:
         case = {'spec': case['spec']}
     run.translate(['Errors'])
